@@ -281,6 +281,7 @@ class BasePort(logging_utils.LoggableMixin, metaclass=abc.ABCMeta):
             pass
         self._reading: bool = False
         self._writing: bool = False
+        self._write_lock: asyncio.Lock = asyncio.Lock()  # serializes driver write_value() calls
 
         self._eval_queue: asyncio.Queue = asyncio.Queue(maxsize=self.WRITE_VALUE_QUEUE_SIZE)
         self._eval_task: Optional[asyncio.Task] = None
@@ -799,7 +800,8 @@ class BasePort(logging_utils.LoggableMixin, metaclass=abc.ABCMeta):
                 self._writing = True
 
                 try:
-                    result = await self.write_value(value)
+                    async with self._write_lock:
+                        result = await self.write_value(value)
                     done.set_result(result)
                 except Exception as e:
                     done.set_exception(e)
@@ -1026,7 +1028,9 @@ class BasePort(logging_utils.LoggableMixin, metaclass=abc.ABCMeta):
                         # Includes ValueUnavailable; a disabled port or a failing transform must not prevent loading
                         value = None
 
-                await self.write_value(value)
+                # Don't overlap with a write issued by the write loop (the port is already registered and enabled)
+                async with self._write_lock:
+                    await self.write_value(value)
         elif self.is_enabled():
             try:
                 value = await self.read_transformed_value()
